@@ -164,6 +164,14 @@ var sites = []site{
 	{Name: "timeout", Tmpl: "on: push\njobs:\n  test:\n    runs-on: ubuntu-latest\n    timeout-minutes: !!float @Q@\n    steps:\n      - run: echo\n"},
 	{Name: "max-parallel", Tmpl: "on: push\njobs:\n  test:\n    runs-on: ubuntu-latest\n    strategy:\n      max-parallel: !!int @Q@\n      matrix:\n        a: [1]\n    steps:\n      - run: echo\n"},
 	{Name: "bool", Tmpl: hdr + "      - run: echo\n        continue-on-error: !!bool @Q@\n"},
+	// explicit tags (their %XX escapes are decoded by the YAML parser) at typed positions
+	{Name: "bool-tag", Tmpl: hdr + "      - run: echo\n        continue-on-error: !x@T@ yes\n"},
+	{Name: "int-tag", Tmpl: "on: push\njobs:\n  test:\n    runs-on: ubuntu-latest\n    strategy:\n      max-parallel: !x@T@ 2\n      matrix:\n        a: [1]\n    steps:\n      - run: echo\n"},
+	{Name: "float-tag", Tmpl: "on: push\njobs:\n  test:\n    runs-on: ubuntu-latest\n    timeout-minutes: !x@T@ 2\n    steps:\n      - run: echo\n"},
+	{Name: "string-tag", Tmpl: hdr + "      - run: !x@T@ [a]\n"},
+	// job ids echoed by the cyclic-dependency diagnostic
+	{Name: "needs-cycle", Tmpl: "on: push\njobs:\n  @Q@:\n    needs: [b]\n    runs-on: ubuntu-latest\n    steps:\n      - run: echo\n  b:\n    needs: [@Q@]\n    runs-on: ubuntu-latest\n    steps:\n      - run: echo\n"},
+	{Name: "needs-self", Tmpl: "on: push\njobs:\n  @Q@:\n    needs: [@Q@]\n    runs-on: ubuntu-latest\n    steps:\n      - run: echo\n"},
 	{Name: "dispatch-input-type", Tmpl: "on:\n  workflow_dispatch:\n    inputs:\n      a:\n        type: @Q@\njobs:\n  test:\n    runs-on: ubuntu-latest\n    steps:\n      - run: echo\n"},
 	{Name: "dispatch-input-name", Tmpl: "on:\n  workflow_dispatch:\n    inputs:\n      @Q@:\n        type: string\njobs:\n  test:\n    runs-on: ubuntu-latest\n    steps:\n      - run: echo ${{ inputs.nope }}\n"},
 	{Name: "dispatch-choice-default", Tmpl: "on:\n  workflow_dispatch:\n    inputs:\n      a:\n        type: choice\n        options: [x, x]\n        default: @Q@\njobs:\n  test:\n    runs-on: ubuntu-latest\n    steps:\n      - run: echo\n"},
@@ -193,7 +201,23 @@ var sites = []site{
 	{Name: "anchor", Tmpl: "on: push\njobs:\n  test:\n    runs-on: *@R@\n"},
 }
 
+// yamlTagEscape: the hostile string as part of a YAML tag (every byte outside [A-Za-z0-9] as %XX:
+// the parser decodes the escapes, so the tag the diagnostics echo holds the raw bytes)
+func yamlTagEscape(h string) string {
+	var b strings.Builder
+	for i := 0; i < len(h); i++ {
+		c := h[i]
+		if c >= 'a' && c <= 'z' || c >= 'A' && c <= 'Z' || c >= '0' && c <= '9' {
+			b.WriteByte(c)
+		} else {
+			fmt.Fprintf(&b, "%%%02X", c)
+		}
+	}
+	return b.String()
+}
+
 func renderTmpl(t, h string) string {
+	t = strings.ReplaceAll(t, "@T@", yamlTagEscape(h))
 	t = strings.ReplaceAll(t, "@Q@", yamlDQ(h))
 	inner := yamlDQ(h)
 	inner = inner[1 : len(inner)-1]
